@@ -688,12 +688,29 @@ impl<W: Word, B: AsRef<[W]> + AsMut<[W]>> BitFieldSliceMut<W> for BitFieldVec<W,
             return;
         }
         let bit_width = self.bit_width();
-        if bit_width == 0 {
+        if bit_width == 0 || bit_width == W::BITS {
+            // Degenerate widths: there is nothing to buffer (and the shifts
+            // below would overflow), so we just apply the function element
+            // by element
+            for idx in 0..self.len() {
+                let value = self.get_unchecked(idx);
+                let new_value = f(value);
+                self.set_unchecked(idx, new_value);
+            }
             return;
         }
         let mask = self.mask();
-        let number_of_words: usize = self.bits.as_ref().len();
+        // Only the words containing elements are processed: the backend might
+        // contain further words (e.g., a padding word), and the bits of the
+        // last word beyond the last element must be preserved
+        let bit_len = self.len() * bit_width;
+        let number_of_words: usize = bit_len.div_ceil(W::BITS);
         let last_word_idx = number_of_words.saturating_sub(1);
+        let last_word_padding = if bit_len % W::BITS == 0 {
+            W::ZERO
+        } else {
+            *self.bits.as_ref().get_unchecked(last_word_idx) & (W::MAX << (bit_len % W::BITS))
+        };
 
         let mut write_buffer: W = W::ZERO;
         let mut read_buffer: W = *self.bits.as_ref().get_unchecked(0);
@@ -751,7 +768,7 @@ impl<W: Word, B: AsRef<[W]> + AsMut<[W]>> BitFieldSliceMut<W> for BitFieldVec<W,
                 bits_in_buffer += bit_width;
             }
 
-            *self.bits.as_mut().get_unchecked_mut(last_word_idx) = write_buffer;
+            *self.bits.as_mut().get_unchecked_mut(last_word_idx) = write_buffer | last_word_padding;
             return;
         }
 
@@ -826,7 +843,7 @@ impl<W: Word, B: AsRef<[W]> + AsMut<[W]>> BitFieldSliceMut<W> for BitFieldVec<W,
             offset += bit_width;
         }
 
-        *self.bits.as_mut().get_unchecked_mut(last_word_idx) = write_buffer;
+        *self.bits.as_mut().get_unchecked_mut(last_word_idx) = write_buffer | last_word_padding;
     }
 
     type ChunksMut<'a>
